@@ -71,7 +71,12 @@ class Sched:
             except Abort:
                 pass
             except Exception as e:  # noqa
-                self.errors[tid] = e
+                from vf.symx import Violation
+                if isinstance(e, Violation):  # a property assertion made inside an actor: stop the run, report in main
+                    self.fatal = e
+                    self.aborting = True
+                else:
+                    self.errors[tid] = e
             except BaseException as e:  # engine control flow (PathAbort, Killed of harness, ...)
                 from vf.rigs.world import Killed
                 if isinstance(e, Killed):
@@ -99,7 +104,7 @@ class Sched:
         self.steps += 1
         if self.steps > self.max_steps:
             raise Deadlock(f"step budget exceeded ({self.max_steps})")
-        live = [t for t in sorted(self.threads) if t not in self.done]
+        live = [t for t in sorted(self.threads, key=str) if t not in self.done]
         if not live:
             self.current = "main"
             self.cv.notify_all()
